@@ -111,6 +111,7 @@ class Ctx:
         self.loop = 0
         self.counter = [0]
         self.hist = None
+        self.iterating = set()  # local lists currently iterated by an enclosing for loop: never mutated there
 
     def copy(self):
         c = Ctx.__new__(Ctx)
@@ -118,6 +119,7 @@ class Ctx:
         c.samples = {k: list(v) for k, v in self.samples.items()}
         c.defined = set(self.defined)
         c.loop = self.loop
+        c.iterating = set(self.iterating)
         return c
 
     def refine(self, facts):
@@ -486,9 +488,14 @@ def assign(c, ind, out):
 
 def mutate(c, ind, out):
     rng = c.rng
-    ms = sorted(n for n in c.defined if n[0] == "m")
+    # a list that is being iterated is neither mutated nor rebound (the iterator is an alias of it:
+    # the property excludes mutation through aliases, and such loops do not terminate)
+    ms = sorted(n for n in c.defined if n[0] == "m" and n not in c.iterating)
+    free = [f"m{i}" for i in range(2) if f"m{i}" not in c.iterating]
+    if not free:
+        return
     if not ms or rng.random() < 0.3:
-        m = f"m{rng.randrange(2)}"
+        m = rng.choice(free)
         out.append(f"{ind}{m} = {rng.choice(['[]', '[' + expr(c, 'u', 1) + ']'])}")
         c.defined.add(m)
     else:
@@ -668,6 +675,8 @@ def stmt_for(c, depth, ind, b):
         v = new_local(c, "u")
         head = f"for {v} in {m or '(1, None)'}:"
         bc.defined.add(v)
+        if m:
+            bc.iterating.add(m)
     bb = block(bc, rng.randrange(1, 3), depth - 1, ind + "    ")
     b.lines.append(ind + head)
     b.lines += bb.lines
